@@ -122,7 +122,10 @@ fn main() {
     for code in ["en", "fr", "es", "pt", "it", "de", "nl"] {
         let l = lang(code);
         for text in corpus(&repo, code) {
+            // ws: every space replaced by another kind (or amount) of Unicode whitespace, one kind at a time
+            let kinds: Vec<&str> = if mode == "ws" { vec!["\u{a0}\t", "\t", "\n", "\r\n", "  ", "\u{b}", "\u{c}", "\u{85}", "\u{2009}", "\u{202f}", "\u{3000}", "\u{2028}"] } else { vec![""] };
             for th in [10.0f64, 0.0] {
+              for kind in &kinds {
                 let base = match run(&text, &l, th) {
                     Some(b) => b,
                     None => continue,
@@ -137,7 +140,7 @@ fn main() {
                         (up, Box::new(move |r: &str| r.to_lowercase() == b))
                     }
                     "ws" => {
-                        let v: String = text.split(' ').collect::<Vec<_>>().join("\u{a0}\t");
+                        let v: String = text.split(' ').collect::<Vec<_>>().join(kind);
                         let b: String = base.split_whitespace().collect::<Vec<_>>().join(" ");
                         (v, Box::new(move |r: &str| r.split_whitespace().collect::<Vec<_>>().join(" ") == b))
                     }
@@ -156,6 +159,7 @@ fn main() {
                     );
                     return;
                 }
+              }
             }
         }
     }
